@@ -175,6 +175,7 @@ func c19serialisers(c *mon.Ctx, g *engine, rng *rand.Rand, n, pattern, w int) {
 	res := make([]*fr.Element, n)
 	rs := make([]fr.Element, n)
 	for i := range res {
+		rs[i] = FrFromBig(randBig(rng, ref.R)) // results are written into used variables (a re-used result buffer)
 		res[i] = &rs[i]
 	}
 	if err := banderwagon.BatchMapToScalarField(res, elems); err != nil {
@@ -202,6 +203,7 @@ func c19serialisers(c *mon.Ctx, g *engine, rng *rand.Rand, n, pattern, w int) {
 			break
 		}
 		var sm fr.Element
+		sm.SetUint64(uint64(i) + 77)
 		elems[i].MapToScalarField(&sm)
 		if rs[i] != sm || FrToBig(&sm).Cmp(ref.MapToScalarField(shad[i])) != 0 {
 			c.Fail("BatchMapToScalarField-differs", fmt.Sprintf("BatchMapToScalarField[%d] of %d differs from the single variant or the reference (%s)", i, n, cls), nil)
